@@ -220,15 +220,25 @@ REBUILD_LIBS = [
 REBUILD_MAIN = "export function f(int a, int b) -> int { int r = scale(a) - scale(b) * 2; return r * 10 + count(); }\n"
 
 
+REBUILD_STRUCT_LIBS = [
+    "struct P { float x; float w; }\nfunction scale(P p) -> float { return p.x * 2 + p.w; }\n",
+    "struct P { int x; float w; }\nfunction scale(P p) -> float { return p.x / 2 + p.w; }\n",
+    "struct P { float x; int w; }\nfunction scale(P p) -> float { return p.x / 2 + p.w / 2; }\n",
+    "struct P { int x; int w; int k; }\nfunction scale(P p) -> float { return p.x / 2 + p.w + p.k * 0.5; }\n",
+]
+REBUILD_STRUCT_MAIN = "export function f(int a, int b) -> float { P p; p.x = a; p.w = b; return scale(p) + p.x / 4; }\n"
+
+
 def run_rebuild(inst, res):
     """a library module is edited and built again under the same file name, and the program is linked again in this (one) process:
     every build must behave like the single-module program made from the sources of that build"""
     tmp = tempfile.mkdtemp(prefix="verif-c16r-")
     res["sample"] = dict(kind="rebuild", generations=len(REBUILD_LIBS), how=inst["how"])
     try:
-        for gen, lib in enumerate(REBUILD_LIBS):
-            single = lib + REBUILD_MAIN
-            modules = [("lib", lib, ()), ("main", 'import "lib";\n' + REBUILD_MAIN, ("lib",))]
+        libs, main_text = (REBUILD_STRUCT_LIBS, REBUILD_STRUCT_MAIN) if inst.get("series") == "structs" else (REBUILD_LIBS, REBUILD_MAIN)
+        for gen, lib in enumerate(libs):
+            single = lib + main_text
+            modules = [("lib", lib, ()), ("main", 'import "lib";\n' + main_text, ("lib",))]
             if inst["how"] == "child":
                 err = compile_all(tmp, modules)
                 if err:
@@ -491,6 +501,8 @@ def instances(tier, seed):
         out.append(dict(kind="duplicate", case=case))
     out.append(dict(kind="rebuild", how="child"))
     out.append(dict(kind="rebuild", how="in-process"))
+    out.append(dict(kind="rebuild", how="child", series="structs"))
+    out.append(dict(kind="rebuild", how="in-process", series="structs"))
     return out
 
 
